@@ -93,6 +93,9 @@ class HostileRun:
         self.w.start_manager()
         w = self.w
         w.quiesce_limit = 6000      # (a burst of 300 connections takes about a thousand rounds to be worked off)
+        # sending is not free: with hundreds of connections a broadcast takes a noticeable part of a timer period
+        w.write_cost = ch.choose("cfg.write_cost", [0.0, 0.0, 2e-5, 1e-3, 4e-3])
+        self.res.config["write_cost"] = w.write_cost
         # bystanders
         self.mon = Actor(w, "mon")
         self.mon.open()
